@@ -475,6 +475,41 @@ theorem readInner_chunk (rblk : Nat) (hr : 0 < rblk) :
         have e1 : min m rblk + (m - min m rblk) = m := by omega
         simp [e1]
 
+theorem takeWhile_hex_append (sz : Bytes) (h : ∀ c ∈ sz, (hexVal c).isSome = true) (t : Bytes) (ht : ∀ c, t.head? = some c → (hexVal c).isSome = false) :
+    (sz ++ t).takeWhile (fun c => (hexVal c).isSome) = sz := by
+  induction sz with
+  | nil =>
+    cases t with
+    | nil => rfl
+    | cons a u => simp [List.takeWhile, ht a rfl]
+  | cons a u ih =>
+    have ha := h a List.mem_cons_self
+    simp only [List.cons_append, List.takeWhile_cons, ha, if_true]
+    rw [ih (fun c hc => h c (List.mem_cons_of_mem _ hc))]
+
+/-- a chunk-size line of 1 to 8 hex digits followed by CR, with a value that fits an int, passes the check of `readBody` -/
+theorem chunkLineValid_hex (sz : Bytes) (h : ∀ c ∈ sz, (hexVal c).isSome = true) (h1 : 1 ≤ sz.length) (h8 : sz.length ≤ 8)
+    (hv : hexToInt (sz ++ [13]) ≤ 2147483647) : chunkLineValid (sz ++ [13]) = true := by
+  unfold chunkLineValid
+  have htw := takeWhile_hex_append sz h [13] (by intro c hc; simp at hc; subst hc; decide)
+  simp only [htw]
+  have hdrop : (sz ++ [13]).drop sz.length = [13] := by simp
+  rw [hdrop]
+  have : List.dropWhile (fun c => c == 32 || c == 9) ([13] : Bytes) = [13] := by decide
+  rw [this]
+  simp [h1, h8, hv]
+
+theorem hexLower_hex (n : Nat) : ∀ c ∈ hexLower n, (hexVal c).isSome = true := by
+  intro c hc
+  obtain ⟨d, hd, hcd⟩ := hexLower_mem n c hc
+  rw [hcd, (hex_digit d hd).1]; rfl
+
+theorem chunkLineValid_hexLower (n : Nat) (hn : n < 2147483648) : chunkLineValid (hexLower n ++ [13]) = true := by
+  apply chunkLineValid_hex _ (hexLower_hex n)
+  · exact List.length_pos_iff.mpr (hexLower_ne_nil n)
+  · exact hexLower_length n (by omega)
+  · rw [hexToInt_hexLower n (by omega)]; omega
+
 theorem hexLower_no_lf (n : Nat) : ∀ c ∈ hexLower n ++ [13], c ≠ 10 := by
   intro c hc
   rcases List.mem_append.mp hc with h | h
@@ -506,8 +541,8 @@ theorem readChunked_step (rblk : Nat) (hr : 0 < rblk) (f : Nat) (i : Inp) (acc :
     simp only [live_dead hi, Bool.false_eq_true, if_false]
     rw [hrl]
     simp only []
+    simp only [chunkLineValid_hexLower _ hp, Bool.not_true, Bool.false_eq_true, if_false]
     rw [hexToInt_hexLower _ (by omega)]
-    simp only [hp, if_true]
     rw [heq]
     simp only []
     rw [advance_advance]
@@ -541,9 +576,13 @@ theorem readChunked_end (rblk : Nat) (f : Nat) (i : Inp) (acc : List Bytes) (res
     rw [hrl]
     have hi2 : (i.advance ([48, 13].length + 1)).err = false := hi.2
     have hlen : i.data.length = 5 + rest.length := by rw [hd]; simp [lastChunk]; omega
-    simp [hexToInt_zero_cr, readInner, hrest, hi2, advance_advance]
+    have hv0 : chunkLineValid [48, 13] = true := by decide
+    simp [hv0, hexToInt_zero_cr, readInner, hrest, hi2, advance_advance]
+    have hmin : min 2 (i.data.length - 3) = 2 := by omega
+    have htk : List.take 2 (List.drop 3 i.data) = [13, 10] := by rw [hd]; simp [lastChunk]
+    have herr3 : (i.advance 3).err = false := hi.2
+    simp only [hmin, htk, herr3, Nat.lt_irrefl, if_false, if_true, decide_false, Bool.or_false]
     simp [Inp.advance, hi.2]
-    omega
   · simp [hd, lastChunk]
 
 theorem writeLoop_chunked_length (blk : Nat) (hb : 0 < blk) :
@@ -2063,7 +2102,7 @@ theorem keepOf_keepalive (q : Request) (hc : lowerAscii (header q.headers sConne
 only ever returned for a one-byte file -/
 theorem rangeOf_some {n : Nat} {b e : Int} {b' e' : Nat} (h : rangeOf n b e = some (b', e')) :
     b' ≤ e' ∧ e' < n ∧ (e' = 0 → n = 1) := by
-  by_cases hez : e = 0
+  by_cases hez : e = 0 ∨ e ≥ (n : Int)
   · simp only [rangeOf, hez, if_true] at h
     split at h
     · exact absurd h (by simp)
@@ -2240,28 +2279,22 @@ theorem suffix_range (n k : Nat) :
   unfold suffixRange rangeOf
   by_cases hk : k = 0 ∨ n = 0
   · simp only [hk, if_true]
-    have : ((-1 : Int) = 0) = False := by simp
-    simp only [this, if_false]
-    have h : ((-1 : Int) < (if k ≥ n then (0 : Int) else (n : Int) - k) ∨ (if k ≥ n then (0 : Int) else (n : Int) - k) < 0 ∨ (-1 : Int) ≥ n) := by
+    have h1 : ¬ ((-1 : Int) = 0 ∨ (-1 : Int) ≥ (n : Int)) := by omega
+    simp only [h1, if_false]
+    have h : ((-1 : Int) < (if k ≥ n then (0 : Int) else (n : Int) - k) ∨ (if k ≥ n then (0 : Int) else (n : Int) - k) < 0) := by
       left; split <;> omega
     simp only [h, if_true]
-  · simp only [hk, if_false]
+  · simp only [hk, if_false, ite_self]
     have hk' : 0 < k ∧ 0 < n := by omega
-    have hne : ¬ ((n : Int) - 1 = 0) ∨ n = 1 := by omega
-    by_cases h1 : (n : Int) - 1 = 0
-    · -- n = 1: (0, 0), read as "to the end" = byte 0
-      have hn : n = 1 := by omega
-      subst hn
-      have hkn : k ≥ 1 := hk'.1
-      simp [hkn]
-    · simp only [h1, if_false]
-      have hc : ¬ ((n : Int) - 1 < (if k ≥ n then (0 : Int) else (n : Int) - k) ∨ (if k ≥ n then (0 : Int) else (n : Int) - k) < 0 ∨ (n : Int) - 1 ≥ n) := by
-        split <;> omega
+    by_cases hkn : k ≥ n
+    · simp only [hkn, if_true]
+      have hc : ¬ ((n : Int) - 1 < 0 ∨ (0 : Int) < 0) := by omega
+      simp only [hc, if_false, Int.toNat_zero]
+      congr 2 <;> omega
+    · simp only [hkn, if_false]
+      have hc : ¬ ((n : Int) - 1 < (n : Int) - k ∨ (n : Int) - k < 0) := by omega
       simp only [hc, if_false]
-      congr 1
-      split
-      · rename_i h; simp only [Int.toNat_zero, Prod.mk.injEq]; constructor <;> omega
-      · rename_i h; simp only [Prod.mk.injEq]; constructor <;> omega
+      congr 2 <;> omega
 
 
 
